@@ -72,7 +72,16 @@ const CONFIGS: &[&str] = &[
     // what an editor extension sends for settings the user left blank: the empty string means
     // "not set", i.e. the default location below the (sandboxed) XDG directories
     r#"{"fileDictPath": ""}"#, r#"{"userDictPath": ""}"#, r#"{"statsPath": "", "fileDictPath": ""}"#,
+    // a user-dictionary setting that names an existing directory (<DIR> is replaced by one inside
+    // the sandbox): every save fails, and nothing may be left behind
+    r#"{"userDictPath": "<DIR>"}"#, r#"{"userDictPath": "<DIR>/"}"#,
 ];
+
+/// settings under which added words are not expected in the sandbox's regular dictionaries
+fn odd_paths(config_idx: usize) -> bool {
+    let c = CONFIGS[config_idx % CONFIGS.len()];
+    c.contains("Path\": \"\"") || c.contains("<DIR>")
+}
 
 #[derive(Debug, Clone)]
 pub struct Finding {
@@ -81,6 +90,49 @@ pub struct Finding {
 
 fn has_flag(args: &str, f: &str) -> bool {
     args.split(|c: char| !(c.is_ascii_alphanumeric() || c == '_')).any(|t| t == f)
+}
+
+/// Files the traced process created (open with O_CREAT, rename / link target) and neither removed
+/// nor renamed away again.
+pub fn left_behind(trace: &[Sys]) -> Vec<String> {
+    let mut live: Vec<String> = vec![];
+    for s in trace {
+        if s.failed() {
+            continue;
+        }
+        let strs = s.string_args();
+        match s.name.as_str() {
+            "openat" | "open" | "creat" => {
+                if let Some(p) = strs.first() {
+                    if (has_flag(&s.args, "O_CREAT") || s.name == "creat") && !live.contains(&p.to_string()) {
+                        live.push(p.to_string());
+                    }
+                }
+            }
+            "rename" | "renameat" | "renameat2" => {
+                if let (Some(a), Some(b)) = (strs.first(), strs.get(1)) {
+                    live.retain(|x| x != a);
+                    if !live.contains(&b.to_string()) {
+                        live.push(b.to_string());
+                    }
+                }
+            }
+            "link" | "linkat" | "symlink" | "symlinkat" => {
+                if let Some(b) = strs.get(1) {
+                    if !live.contains(&b.to_string()) {
+                        live.push(b.to_string());
+                    }
+                }
+            }
+            "unlink" | "unlinkat" => {
+                if let Some(a) = strs.first() {
+                    live.retain(|x| x != a);
+                }
+            }
+            _ => {}
+        }
+    }
+    live
 }
 
 /// The invariant. `allowed_write_prefixes`: paths the process may create/modify; `listener`: the
@@ -196,8 +248,13 @@ fn run_session(c: &Session, ctx: &mut CaseCtx) -> Result<Result<(), String>, Lsp
     let alt_user = sb.root.join("dicts2/user2.txt");
     let alt_files = sb.root.join("filedicts2");
     let paths_gen = std::cell::Cell::new(0usize);
+    let a_dir = sb.root.join("adir");
+    std::fs::create_dir_all(&a_dir).map_err(|e| LspError::Protocol(e.to_string()))?;
     let settings_of = |idx: usize| {
         let mut extra: Value = serde_json::from_str(CONFIGS[idx % CONFIGS.len()]).unwrap_or(json!({}));
+        if let Some(v) = extra.get("userDictPath").and_then(|v| v.as_str()).filter(|v| v.contains("<DIR>")).map(|v| v.replace("<DIR>", &a_dir.to_string_lossy())) {
+            extra["userDictPath"] = json!(v);
+        }
         if paths_gen.get() == 1 {
             extra["userDictPath"] = json!(alt_user.to_string_lossy());
             extra["fileDictPath"] = json!(alt_files.to_string_lossy());
@@ -282,7 +339,7 @@ fn run_session(c: &Session, ctx: &mut CaseCtx) -> Result<Result<(), String>, Lsp
                 let cmd = if matches!(st, Step::AddUser { .. }) { "HarperAddToUserDict" } else { "HarperAddToFileDict" };
                 let uri = sb.uri(DOCS[i].0);
                 srv.execute_and_publish(cmd, json!([format!("zqword{}", saves), uri]), &uri)?;
-                let blank_paths = CONFIGS[config_idx % CONFIGS.len()].contains("Path\": \"\"");
+                let blank_paths = odd_paths(config_idx);
                 if let (Some(g), false) = (known, blank_paths) {
                     added.push((format!("zqword{}", saves), matches!(st, Step::AddUser { .. }), g));
                 }
@@ -318,6 +375,9 @@ fn run_session(c: &Session, ctx: &mut CaseCtx) -> Result<Result<(), String>, Lsp
                 config_idx = *idx as usize;
                 if CONFIGS[config_idx % CONFIGS.len()].contains("Path\": \"\"") {
                     ctx.class("empty_string_path_setting");
+                }
+                if CONFIGS[config_idx % CONFIGS.len()].contains("<DIR>") {
+                    ctx.class("user_dictionary_setting_names_a_directory");
                 }
                 let settings = settings_of(*idx as usize);
                 srv.settings = settings.clone();
@@ -399,7 +459,7 @@ fn run_session(c: &Session, ctx: &mut CaseCtx) -> Result<Result<(), String>, Lsp
                     let uri = sb.uri(DOCS[i].0);
                     srv.change(&uri, version, &texts[i].clone())?;
                     known = Some(paths_gen.get());
-                    let blank_paths = CONFIGS[config_idx % CONFIGS.len()].contains("Path\": \"\"");
+                    let blank_paths = odd_paths(config_idx);
                     for cmd in ["HarperAddToFileDict", "HarperAddToUserDict"] {
                         srv.execute_and_publish(cmd, json!([format!("zqword{}", saves), uri]), &uri)?;
                         if !blank_paths {
@@ -483,7 +543,32 @@ fn run_session(c: &Session, ctx: &mut CaseCtx) -> Result<Result<(), String>, Lsp
             )));
         }
     }
-    let findings = audit(&trace, &allowed, &dirs, false, &crate::lsp::ls_binary().to_string_lossy());
+    // scratch files next to the directory the user-dictionary setting may name
+    allowed.push(a_dir.to_string_lossy().to_string());
+    let mut findings = audit(&trace, &allowed, &dirs, false, &crate::lsp::ls_binary().to_string_lossy());
+    // what is still there at the end: only the configured files themselves (scratch files used
+    // while saving must be gone again)
+    {
+        let exact: Vec<String> = vec![
+            sb.user_dict().to_string_lossy().to_string(),
+            alt_user.to_string_lossy().to_string(),
+            sb.stats().to_string_lossy().to_string(),
+            sb.root.join("config/harper-ls/dictionary.txt").to_string_lossy().to_string(),
+            sb.root.join("data/harper-ls/stats.txt").to_string_lossy().to_string(),
+            link_target.to_string_lossy().to_string(),
+        ];
+        let file_dirs: Vec<String> = vec![
+            format!("{}/", sb.file_dict_dir().to_string_lossy()),
+            format!("{}/", alt_files.to_string_lossy()),
+            format!("{}/", sb.root.join("data/harper-ls/file_dictionaries").to_string_lossy()),
+        ];
+        for p in left_behind(&trace) {
+            if exact.contains(&p) || file_dirs.iter().any(|d| p.starts_with(d.as_str())) || p == "/dev/null" || p.starts_with("/proc/") {
+                continue;
+            }
+            findings.push(Finding { what: format!("creates {p} and leaves it behind (not one of the configured files)") });
+        }
+    }
     // the statistics file is written at shutdown
     let wrote_stats = trace.iter().any(|s| s.name.starts_with("open") && s.string_args().first().is_some_and(|p| *p == sb.stats().to_string_lossy()));
     ctx.class_if(saves >= 1, "dictionary_saved");
@@ -525,7 +610,8 @@ fn step() -> BoxedStrategy<Step> {
         3 => (0u8..4).prop_map(|doc| Step::AddFile { doc }),
         1 => (0u8..4).prop_map(|doc| Step::Ignore { doc }),
         2 => Just(Step::Record),
-        3 => any::<u8>().prop_map(|idx| Step::Config { idx }),
+        // half of the configuration changes touch the path settings (blank, or naming a directory)
+        4 => prop_oneof![any::<u8>(), 5u8..10].prop_map(|idx| Step::Config { idx }),
         1 => (0u8..4).prop_map(|doc| Step::CodeActions { doc }),
         1 => (0u8..4).prop_map(|doc| Step::DeleteFile { doc }),
         3 => (0u8..6, any::<u8>()).prop_map(|(which, text)| Step::OddUri { which, text }),
@@ -857,6 +943,7 @@ pub fn run(run: &mut Run) {
     // (16 sessions in the quick tier: the requirement is "not absent", the weights make each of
     // these shapes occur in a third to a half of the sessions)
     run.require_class("language_server_sessions", "document_path_of_256_bytes_or_more", (n / 16) as u64);
+    run.require_class("language_server_sessions", "user_dictionary_setting_names_a_directory", (n / 16) as u64);
     run.require_class("language_server_sessions", "user_dictionary_is_a_relative_symbolic_link", (n / 16) as u64);
     run.require_class("language_server_sessions", "dictionary_paths_changed_without_notification", (n / 16) as u64);
     run.require_class("language_server_sessions", "words_added_after_the_server_pulled_the_new_paths", (n / 16) as u64);
